@@ -852,3 +852,117 @@ func boundDesc(b *big.Int, sym string) string {
 	}
 	return "a width given by parameter " + sym
 }
+
+// ruleSpongeOverwrite (C09/O9.4): the Goldilocks sponge absorbs in overwrite mode — inside the absorption loops the
+// only writes to the state are state[j] = input[i+j] (guarded by i+j < len(input)) for j below the rate, and the
+// permutation's result; in particular a short last chunk leaves the remaining rate elements in place.
+func ruleSpongeOverwrite(cx *Ctx) []Obligation {
+	P := cx.P
+	key := "C09/O9.4/overwrite-mode"
+	desc := "the sponge absorbs in overwrite mode: within the absorption loops the state is written only as state[j] = input[i+j] for j < SPONGE_RATE (nothing else is stored into the rate part, so a partial last chunk keeps the earlier elements, as plonky2's hash_n_to_m_no_pad does)"
+	fn := P.Func("poseidon", "(*GoldilocksChip).HashNToMNoPad")
+	if fn == nil {
+		return []Obligation{undecided(key, desc, "poseidon.GoldilocksChip.HashNToMNoPad not found")}
+	}
+	fi := GetFnInfo(fn)
+	input := ssa.Value(fn.Params[1])
+	// the state array: the local of array type that is passed to / assigned from Poseidon
+	var state *ssa.Alloc
+	for _, b := range fn.Blocks {
+		for _, ins := range b.Instrs {
+			if a, ok := ins.(*ssa.Alloc); ok {
+				if pt, ok := a.Type().Underlying().(*types.Pointer); ok {
+					if at, isArr := pt.Elem().Underlying().(*types.Array); isArr && typeIs(at.Elem(), "goldilocks.Variable") && at.Len() > 4 && state == nil {
+						state = a // the sponge state (width 12); compiler temporaries for variadic calls have length 1
+					}
+				}
+			}
+		}
+	}
+	if state == nil {
+		return []Obligation{undecided(key, desc, "the sponge state array was not found")}
+	}
+	rate := int64(-1)
+	if c, ok := P.SPkgs["poseidon"].Members["SPONGE_RATE"].(*ssa.NamedConst); ok {
+		rate, _ = constInt(c.Value)
+	}
+	nGood := 0
+	for _, b := range fn.Blocks {
+		loops := fi.LoopsOf[b.Index]
+		for _, ins := range b.Instrs {
+			st, ok := ins.(*ssa.Store)
+			if !ok {
+				continue
+			}
+			ia, ok := st.Addr.(*ssa.IndexAddr)
+			if !ok || ia.X != ssa.Value(state) {
+				continue
+			}
+			site := P.Pos(st.Pos())
+			// which loop's induction variable indexes the state?
+			var jl *SLoop
+			for _, l := range loops {
+				if l.IndexVal == ia.Index {
+					jl = l
+				}
+			}
+			if jl == nil {
+				if len(loops) > 0 && loops[0].StartConst != nil && len(loops) == 1 && !usesInput(fn, loops[0], input) {
+					continue // initialisation loop (state[i] = 0) before absorption
+				}
+				return []Obligation{bad(key, desc, "the state is written at an index that is not the rate loop's variable", site)}
+			}
+			if !usesInput(fn, jl, input) && (jl.Parent == nil || !usesInput(fn, jl.Parent, input)) {
+				continue // initialisation loop
+			}
+			// absorption: value must be input[i+j]
+			okVal := false
+			if u, ok := st.Val.(*ssa.UnOp); ok && u.Op == token.MUL {
+				if src, ok := u.X.(*ssa.IndexAddr); ok && src.X == input {
+					if add, ok := src.Index.(*ssa.BinOp); ok && add.Op == token.ADD && jl.Parent != nil &&
+						((add.X == jl.Parent.IndexVal && add.Y == jl.IndexVal) || (add.Y == jl.Parent.IndexVal && add.X == jl.IndexVal)) {
+						okVal = true
+					}
+				}
+			}
+			if !okVal {
+				return []Obligation{bad(key, desc, "inside the absorption loops the state is also written with something other than input[i+j] (e.g. zero-filling of a partial chunk): "+st.Val.String(), site)}
+			}
+			if b2, ok := constInt(jl.Bound); !ok || b2 != rate || jl.StartConst == nil || *jl.StartConst != 0 || jl.Step != 1 {
+				return []Obligation{bad(key, desc, "the rate loop does not run over j = 0 … SPONGE_RATE−1", site)}
+			}
+			if jl.Parent == nil || jl.Parent.Step != rate || jl.Parent.StartConst == nil || *jl.Parent.StartConst != 0 {
+				return []Obligation{bad(key, desc, "the chunk loop does not advance by SPONGE_RATE from 0", site)}
+			}
+			nGood++
+		}
+	}
+	if nGood == 0 {
+		return []Obligation{bad(key, desc, "no absorption store state[j] = input[i+j] found", P.FnName(fn))}
+	}
+	return []Obligation{good(key, desc, P.FnName(fn)+" "+P.Pos(fn.Pos()))}
+}
+
+func usesInput(fn *ssa.Function, l *SLoop, input ssa.Value) bool {
+	for b := range l.Blocks {
+		for _, ins := range b.Instrs {
+			if ia, ok := ins.(*ssa.IndexAddr); ok && ia.X == input {
+				return true
+			}
+		}
+	}
+	return false
+}
+
+// rulesC08Widths (C08/O8.3, partial): the quotient widths of the witnessed reductions reached from the extension-field
+// API admit a single result (W1) — the C05 obligations for every width reaching ReduceWithMaxBits.
+func rulesC08Widths(cx *Ctx) []Obligation {
+	var obs []Obligation
+	for _, o := range rulesC05(cx) {
+		if strings.HasPrefix(o.Key, "C05/W1/ReduceWithMaxBits/width@") || strings.HasPrefix(o.Key, "C05/W1/MulAdd") || strings.HasPrefix(o.Key, "C05/R1/ReduceWithMaxBits/") || strings.HasPrefix(o.Key, "C05/R1/MulAdd/") {
+			o.Key = "C08/O8.3/" + strings.TrimPrefix(o.Key, "C05/")
+			obs = append(obs, o)
+		}
+	}
+	return obs
+}
